@@ -8,7 +8,7 @@ EdgeLog ==
   LET rec == [s |-> <<TLCFP(View), TLCFP(<<View, 1>>)>>, t |-> <<TLCFP(View'), TLCFP(<<View', 1>>)>>,
               th |-> lastT', pc |-> lastPc', scn |-> scn.id, done |-> AllDone',
               obs |-> [ran |-> [k \in 1..Len(ranSeq') |-> <<ranSeq'[k][1], 1>>]]]
-  IN (lastT' # 0 /\ "EDGES" \in DOMAIN IOEnv) =>
+  IN (lastT' # 0) =>
      Serialize(ToJson(rec) \o "\n", IOEnv.EDGES,
         [format |-> "TXT", charset |-> "UTF-8", openOptions |-> <<"WRITE", "CREATE", "APPEND">>]).exitValue = 0
 ====
